@@ -67,6 +67,18 @@ CHECKS = {
         note='canonical_form on properties whose split position binds an alias in only some alternatives is a listed known finding (F13); the allowed-raise rule for simplify also covers sub-terms undefined on the whole valuation grid',
         ref='DESIGN.md section 4, C14',
     ),
+    'C15': dict(
+        technique='systematic slot-by-kind enumeration plus random generation, every reference query compared with independent walkers that read child slots through getattr (differential against a reference implementation of the queries)',
+        level='the slot x node-kind table (an @a reference, a current-message field and a binder placed in every child slot, alone and under every other slot, two context levels; also as aliased-event predicate) is enumerated completely on every run; thousands of random expressions, predicates, API-built events (so that property-level sanity cannot hide event-level queries), properties and specifications in addition',
+        note='the walkers rely on the slot table in hplverif/astx.py, which is cross-checked against the attrs fields of the AST classes at start-up',
+        ref='DESIGN.md section 4, C15',
+    ),
+    'C16': dict(
+        technique='stateful property-based testing (Hypothesis rule-based state machine): pool of ASTs with deep snapshots, ~24 API operations applied to pool members or their sub-trees, invariant "no earlier snapshot changes" after every step; but() compared with a fresh construction',
+        level='bounded exploration of call histories: about a thousand sequences of up to 10 calls per quick run (16 x 1200 x 14 in the thorough tier) over parser-produced properties, predicates and expressions; every stored type, metadata dict and hash of every AST obtained earlier is re-read after each call',
+        note='whether a call raises is not judged here (C07/C14 do); sequences are recorded as programs and replayed without Hypothesis',
+        ref='DESIGN.md section 4, C16',
+    ),
     'C20': dict(
         technique='small-scope exhaustive enumeration against a 7-bit integer model (generated-input search with a reference model)',
         level='every one of the 128 type sets, 128^2 pairs and 128^3 triples is enumerated and compared with a bit-mask model; the space is finite, so on this tree the statement is checked completely (exhaustive: true)',
